@@ -31,11 +31,13 @@ THEOREMS = [
     "JanetModel.Props.C06.close_wakes_all",
     "JanetModel.Props.C06.conservation",
     "JanetModel.Props.C06.nothing_twice",
-    "JanetModel.Props.C06.no_lost_wakeup_partial",
-    "JanetModel.Props.C06.current_source_checks",
     "JanetModel.Props.C06.select_give_to_waiting_taker_sticks",
     "JanetModel.Props.C06.take_wakes_stale_select_writer",
     "JanetModel.Props.C06.close_wakes_stale_select_waiter",
+]
+SOURCE_OBLIGATIONS = [
+    "JanetModel.Props.C06.no_lost_wakeup_partial",
+    "JanetModel.Props.C06.current_source_checks",
 ]
 ENV = dict(os.environ, ASAN_OPTIONS="detect_leaks=0:abort_on_error=0", UBSAN_OPTIONS="print_stacktrace=1")
 NPROC = int(os.environ.get("VERIF_JOBS", "16"))
@@ -266,6 +268,7 @@ def run(ctx, only=None):
         ctx.say("BROKEN TIE:", e)
     # (B,C) kernel check + audit
     b = ctx.obligations("JanetModel.Props.C06", THEOREMS)
+    b += ctx.obligations("JanetModel.Ev.SourceObligations", SOURCE_OBLIGATIONS)
     broken += b
     if b:
         ctx.say("broken obligations: %s" % "; ".join(x[:160] for x in b[:4]))
